@@ -9,6 +9,7 @@ budgets because they are proved for `page` with arbitrary limits and increments.
 -/
 import GoNfsd.Lemmas.DirData
 import GoNfsd.Lemmas.Enumerate
+import GoNfsd.Lemmas.EntriesStay
 import GoNfsd.Gen.Skeleton
 
 namespace GoNfsd.Props.C13
@@ -361,5 +362,30 @@ theorem the_directory_listed_is_the_locked_one :
     ∀ f ∈ GoNfsd.Gen.Skeleton.slotUses, GoNfsd.Model.Skeleton.slotCheck f = true := by decide
 
 example : GoNfsd.Model.Skeleton.slotCheck ("LockInode", [(0, "LookupSlot"), (0, "Acquire")]) = false := by decide
+
+/-! ### entries never move -/
+
+/-- WHY "AN ENTRY THAT STAYS IN ITS SLOT" IS THE RIGHT HYPOTHESIS of `enumeration_exact_dynamic_holds`: cookies are slot
+    offsets, and in the reference file system no operation ever MOVES an entry.  For every state, every operation with any
+    allocator and slot choices, every live directory and every live slot of it: after the step the slot holds the same entry,
+    or is free (the entry was removed), or went with its removed directory — or, in a RENAME only, holds the name that RENAME
+    introduced, the old entry having been removed by it.  So an entry that is in the directory before and after a step is in
+    the same slot, and whatever happens between two READDIR calls, an entry present throughout keeps its cookie.  (Seeded
+    change C13p compacts directories: `RemNameDir` moves the last entry into the freed slot.) -/
+theorem no_operation_moves_an_entry (s : GoNfsd.Model.Fs.FS) (op : GoNfsd.Model.Fs.Op) (c : GoNfsd.Model.Fs.Choice) (i k : Nat)
+    (a : Slot) (h : (s.get i).slots[k]? = some a) (ha : a.inum ≠ 0) (hl : (s.get i).kind ≠ 0) :
+    GoNfsd.Model.Fs.Stays a ((GoNfsd.Model.Fs.step s op c).1.get i) k ∨
+      ∃ ffh fname tfh tname b, op = .rename ffh fname tfh tname ∧
+        ((GoNfsd.Model.Fs.step s op c).1.get i).slots[k]? = some b ∧ b.name = tname :=
+  GoNfsd.Model.Fs.step_entries_stay s op c i k a h ha hl
+
+/-- non-vacuity and the refill case: RENAME b → c in a directory [., .., a, b] with the freed slot of b chosen for c -/
+example :
+    let s0 := (GoNfsd.Model.Fs.run (GoNfsd.Model.Fs.mkfs true 100000)
+      [(.create (GoNfsd.Model.Fs.mkFh 1 1) [97] 0, { inum := 2, slot := 2 }),
+       (.create (GoNfsd.Model.Fs.mkFh 1 1) [98] 0, { inum := 3, slot := 3 })]).1
+    let s1 := (GoNfsd.Model.Fs.step s0 (.rename (GoNfsd.Model.Fs.mkFh 1 1) [98] (GoNfsd.Model.Fs.mkFh 1 1) [99]) { slot := 3 }).1
+    (s0.get 1).slots[2]? = some { inum := 2, name := [97] } ∧ (s1.get 1).slots[2]? = some { inum := 2, name := [97] } ∧
+    (s0.get 1).slots[3]? = some { inum := 3, name := [98] } ∧ (s1.get 1).slots[3]? = some { inum := 3, name := [99] } := by decide
 
 end GoNfsd.Props.C13
